@@ -660,9 +660,9 @@ class Interp(object):
         if ck in ('IntegralCast', 'IntegralToBoolean', 'BooleanToSignedIntegral'):
             if isinstance(v, int):
                 return int_conv(v, t)
-            if isinstance(v, Sym) and isinstance(v.tag, tuple) and v.tag[0] == 'BYTE':
-                return v
-            return v if isinstance(v, (Pos,)) else (TOP if not isinstance(v, Sym) else v)
+            if v is TOP or v is None:
+                return TOP
+            return self.cast_other(v, t)
         if ck in ('NoOp', 'ArrayToPointerDecay', 'FunctionToPointerDecay', 'DerivedToBase', 'UncheckedDerivedToBase', 'BitCast',
                   'ConstructorConversion', 'NullToPointer', 'BuiltinFnToFnPtr', 'LValueBitCast', 'BaseToDerived', 'Dependent', 'ToVoid'):
             return v
@@ -673,6 +673,10 @@ class Interp(object):
             if ck == 'PointerToBoolean' and isinstance(v, int):
                 return 1 if v else 0
             return TOP
+        return v
+
+    def cast_other(self, v, t):
+        """integral conversion of a non-constant abstract value (symbolic values keep their identity by default)"""
         return v
 
     def ev_unary(self, fr, n, depth):
